@@ -36,8 +36,8 @@ EXPLANATION = (
     'an order-sensitive consumer (for-loop with an insertion-ordered effect, list()/tuple()/join()/comprehension/*-unpacking whose result '
     'escapes) that is not wrapped in sorted() is a violation, order-insensitive consumers are discharged, everything unclassifiable is '
     'information. R2 (K3): in NinjaBuildElement.write every set-typed attribute reaches the written text only through sorted(). '
-    'R3 (K1/K2): the five sibling writers of configure-time files open a temporary path and every normal path ends in '
-    'replace_if_different(final, temporary); inside replace_if_different os.replace happens exactly on the paths where the comparison did '
+    'R3 (K1/K2): the five sibling writers of configure-time files open a temporary path, every normal path ends in '
+    'replace_if_different(final, temporary) and that call is only reachable after the writer was closed (with-exit / close()); inside replace_if_different os.replace happens exactly on the paths where the comparison did '
     'not prove equality and the equal path unlinks the temporary; build.ninja goes through temp + os.replace. R4 (K3): the scratch file '
     'names meson_exe_*/meson_rsp_* are functions of a digest fed by command, env, workdir, capture and feed and by nothing volatile. '
     'R5 (K6): every un-keyed sorted()/sort()/min()/max() in scope whose elements are instances of a repository class relies on a __lt__ '
@@ -262,7 +262,50 @@ def _finished_by(ctx: RuleCtx, mod: Module, qual: str, finisher: str, dst_index:
                     (f'`{short(op, 60)}` is not followed on every normal path by {finisher}(<final>, {p}): ' +
                      ('no such call exists - the final name is opened directly, so the file is rewritten (mtime changes) even when its content is unchanged'
                       if not fins else 'some path leaves the function without it')), op)
+        # publication happens after the writer is closed: a still open (unflushed) temporary compares different / is moved half-written
+        if fin_nodes:
+            closes = _close_nodes(cfg, fn, op, qual)
+            early = [fnode for fnode in fin_nodes for on in open_nodes
+                     if cfg.can_reach(on, fnode, no_exc=True) and not cfg.must_pass(on, fnode, closes, no_exc=True)]
+            # any other `with <call>(..., P, ...)` is a handle on the same temporary (e.g. a helper that re-opens it for appending)
+            holders = 0
+            for w in walk_no_nested(fn):
+                if isinstance(w, (ast.With, ast.AsyncWith)) and any(
+                        isinstance(i.context_expr, ast.Call) and i.context_expr is not op and
+                        any(norm(a) == p for a in list(i.context_expr.args) + [k.value for k in i.context_expr.keywords]) for i in w.items):
+                    holders += 1
+                    enters = [n for n in cfg.nodes if n.kind == 'with_enter' and n.ast is w]
+                    exits = [n for n in cfg.nodes if n.kind == 'with_exit' and n.ast is w]
+                    early += [fnode for fnode in fin_nodes for en in enters
+                              if cfg.can_reach(en, fnode, no_exc=True) and not cfg.must_pass(en, fnode, exits, no_exc=True)]
+            ctx.require(not early, f'{mod.rel}:{qual}: the file opened by `{short(op, 40)}`{f" (and {holders} further with-handle(s) on {p})" if holders else ""} is closed on every path before {finisher}(final, {p}) '
+                        f'({len(closes)} close node(s))', mod, qual, f'{finisher}(..., {p}) before close of {short(op, 40)}',
+                        f'{finisher}(final, {p}) can run before the writer is closed (the call is reachable from `{short(op, 50)}` without passing '
+                        "the with-exit / .close() of that file): the temporary is still unflushed, so the comparison sees a difference and the "
+                        'unchanged output is replaced on every reconfigure (or a truncated file is published)',
+                        early[0].ast if early else op)
     return len(opens)
+
+
+def _close_nodes(cfg: CFG, fn: ast.AST, op: ast.Call, qual: str) -> T.List[T.Any]:
+    """CFG nodes at which the file object created by `op` is closed: the with-exit nodes of its `with`, or `<name>.close()`."""
+    for w in walk_no_nested(fn):
+        if isinstance(w, (ast.With, ast.AsyncWith)) and any(i.context_expr is op for i in w.items):
+            exits = [n for n in cfg.nodes if n.kind == 'with_exit' and n.ast is w]
+            if not exits:
+                raise Undecided(f'{qual}: no with-exit node for `{short(op, 40)}`')
+            return exits
+        if isinstance(w, (ast.Assign, ast.AnnAssign)) and w.value is op:
+            tgts = w.targets if isinstance(w, ast.Assign) else [w.target]
+            if len(tgts) == 1 and isinstance(tgts[0], ast.Name):
+                name = tgts[0].id
+                closes = cfg.nodes_with_call(lambda c: isinstance(c.func, ast.Attribute) and c.func.attr == 'close' and attr_chain(c.func.value) == name)
+                # `with f:` on the bound name closes it as well
+                for w2 in walk_no_nested(fn):
+                    if isinstance(w2, (ast.With, ast.AsyncWith)) and any(attr_chain(i.context_expr) == name for i in w2.items):
+                        closes += [n for n in cfg.nodes if n.kind == 'with_exit' and n.ast is w2]
+                return closes      # empty: never closed -> every publication is early
+    raise Undecided(f'{qual}: cannot tell where the file opened by `{short(op, 50)}` is closed (not a with item, not bound to a name)')
 
 
 def _r3_core(ctx: RuleCtx) -> None:
@@ -493,6 +536,14 @@ def replace_if_different(dst, dst_tmp):
         pass
     os.replace(dst_tmp, dst)
 '''
+EX_EARLY_WRITER = '''
+class CmakeModule:
+    def create_package_file(self, out):
+        tmp = out + '~'
+        with open(tmp, 'w') as f:
+            f.write('x')
+            mesonlib.replace_if_different(out, tmp)
+'''
 EX_ONE_WRITER = '''
 class %s:
     def %s(self, out):
@@ -574,8 +625,8 @@ def r2(ctx: RuleCtx) -> None:
 def r3(ctx: RuleCtx) -> None:
     _example_must_fire(ctx, _r3_core, {UNIVERSAL: EX_WRITER, NINJA: EX_NINJA, INTERP: EX_ONE_WRITER % ('Interpreter', 'func_configure_file'),
                                        PKGCONFIG: EX_ONE_WRITER % ('PkgConfigModule', '_generate_pkgconfig_file'),
-                                       CMAKE: EX_ONE_WRITER % ('CmakeModule', 'create_package_file')},
-                       ['do_conf_file', 'contents compare equal', 'NinjaBackend.generate'])
+                                       CMAKE: EX_EARLY_WRITER},
+                       ['do_conf_file', 'contents compare equal', 'NinjaBackend.generate', 'before the writer is closed'])
     _r3_core(ctx)
 
 
